@@ -802,6 +802,40 @@ def locate_coq_errors(log):
     return out
 
 
+_NONE_DEF = re.compile(r"^Definition\s+(\w+)\s*:\s*option\s+[^:=]+:=\s*None\s*\.", re.M)
+
+
+def unavailable_obligations(prop_id):
+    """Generated definitions that are `None` (member outside the translators' whitelists) and are
+    mentioned by a file in the dependency cone of Props/<id>.v: [{definition, gen_file, used_by}]."""
+    deps = props_deps(prop_id)
+    gen = [f for f in deps if f.startswith("Gen/")]
+    rest = [f for f in deps if not f.startswith("Gen/")]
+    nones = []
+    for g in gen:
+        try:
+            text = open(os.path.join(COQ, g), encoding="utf-8").read()
+        except OSError:
+            continue
+        for m in _NONE_DEF.finditer(text):
+            nones.append((m.group(1), g))
+    if not nones:
+        return []
+    texts = {}
+    for f in rest:
+        try:
+            texts[f] = open(os.path.join(COQ, f), encoding="utf-8").read()
+        except OSError:
+            texts[f] = ""
+    out = []
+    for name, g in nones:
+        pat = re.compile(r"\b%s\b" % re.escape(name))
+        used = [f for f, t in texts.items() if pat.search(t)]
+        if used:
+            out.append({"definition": name, "gen_file": g, "used_by": used})
+    return out
+
+
 def obligations_gate(report, prop_id):
     """Build + compile the property's obligations.  A failure is recorded as a violation
     without failing input (the caller still runs the search for one)."""
@@ -836,6 +870,25 @@ def obligations_gate(report, prop_id):
             },
             failing_input=False,
         )
+    # fail closed on members a translator could not read: their generated definition is `None`, the
+    # GenAgree lemma about it is then vacuous (`| None => True`), so the property is no longer shown
+    # to hold for that member from the source text.  (Never the case on the unchanged tree; a
+    # harmless rewrite outside the whitelist gives the same report - ending no-failing-input-found
+    # when the correspondence search finds nothing.)
+    una = unavailable_obligations(prop_id)
+    if una:
+        for u in una:
+            print("NOTE obligation-unavailable %s (used by %s)" % (u["definition"], ", ".join(u["used_by"][:3])))
+        report.violation(
+            "obligation-broken",
+            {"theorem_or_file": "translator-unavailable: " + ", ".join(u["definition"] for u in una)},
+            {"unavailable": una,
+             "explanation": "the source member(s) could not be read by the fail-closed translator; the "
+                            "GenAgree obligation(s) about them are vacuous on this tree"},
+            failing_input=False,
+        )
+        ob["ok"] = False
+        ob["unavailable"] = una
     if ob.get("ok") and report.tier == "thorough":
         # independent re-check of the compiled property file and everything it depends on
         rc, out = _sh("timeout 2400 coqchk -silent -o -Q . CC CC.Props.%s" % prop_id, cwd=COQ, timeout=2500)
